@@ -75,8 +75,8 @@ func (c *FnCtx) chanSendCore(st *State, ch, v Val, pos token.Pos) {
 }
 
 func (c *FnCtx) chanSend(fr *Frame, st *State, ch, v Val, pos token.Pos) {
+	c.eng.onChanSend(c, fr, st, ch, v, pos) // step contracts see the state just before the send
 	c.chanSendCore(st, ch, v, pos)
-	c.eng.onChanSend(c, fr, st, ch, v, pos)
 }
 
 func (c *FnCtx) chanClose(fr *Frame, st *State, ch Val, pos token.Pos) {
@@ -122,7 +122,47 @@ func (c *FnCtx) execSelect(fr *Frame, st *State, i *ssa.Select) {
 }
 
 func (e *Engine) onChanRecv(c *FnCtx, fr *Frame, st *State, ch, v Val, ok string, pos token.Pos) {}
-func (e *Engine) onChanSend(c *FnCtx, fr *Frame, st *State, ch, v Val, pos token.Pos)           {}
+// onChanSend: step contracts (`onsend ch: expr`) of the verified function are obligations at each send on that channel.
+func (e *Engine) onChanSend(c *FnCtx, fr *Frame, st *State, ch, v Val, pos token.Pos) {
+	spec := c.specFor(fr)
+	if spec == nil || len(spec.OnSend) == 0 || c.sc.pure {
+		return
+	}
+	// innermost loop containing the send (so that loop-carried names denote their value at the start of the iteration)
+	var li *loopInfo
+	if blk := c.curBlock; blk != nil {
+		for _, l := range fr.loops {
+			if l.body[blk] && (li == nil || len(l.body) < len(li.body)) {
+				li = l
+			}
+		}
+	}
+	for k, sc := range spec.OnSend {
+		env := c.newEnv(fr, st, fr.entry)
+		env.loop = li
+		env.anyDef = true
+		chv, ok := c.tryLookup(env, sc.Chan)
+		if !ok || chv.E != ch.E {
+			continue
+		}
+		env.names["sent"] = v
+		var g string
+		if imp, ok := sc.E.(*EBinary); ok && imp.Op == "==>" {
+			// a guarded clause may mention locals that do not exist yet at this send (e.g. the received event at the
+			// seed send): there it can only hold because its guard is false
+			ante := c.evalBool(env, imp.X)
+			if cons, ok := c.tryEvalBool(env, imp.Y); ok {
+				g = Implies(ante, cons)
+			} else {
+				g = Not(ante)
+			}
+		} else {
+			g = c.evalBool(env, sc.E)
+		}
+		o := c.obligation(st, "step", "send."+sc.Chan+"."+clauseName(sc.Clause, k), g, pos)
+		o.Desc = "every value sent on " + sc.Chan + " satisfies: " + sc.Text
+	}
+}
 func (e *Engine) onChanClose(c *FnCtx, fr *Frame, st *State, ch Val, pos token.Pos)             {}
 
 // spec-level access to channel ghost state
